@@ -223,19 +223,63 @@ def single_defs_loop(loop):
     return {k: v for k, v in val.items() if cnt[k] == 1}
 
 
+def sample_of_plate_helpers(ctx, f):
+    """repository functions called from f (directly or through a new helper spliced into it) that map one plate to its first
+    sample id: {call node: helper Func}"""
+    from engine.astutil import resolve_helper
+    out = {}
+    for c in calls(f.node):
+        h, skip = resolve_helper(ctx.R, f, c)
+        if h is None:
+            continue
+        ps = h.params[skip:] if skip else [p for p in h.params if p not in ("self", "cls")]
+        if len(ps) != 1:
+            continue
+        p = ps[0]
+        henv = single_defs(h.node)
+        rets = [U(inline(r.value, henv)).replace(" ", "") for r in returns(h.node) if r.value is not None]
+        if rets and all(r in (f"{p}.unique_sample_ids[0]", f"{p}.sample_ids[0]") for r in rets):
+            out[c] = (h, p)
+    return out
+
+
 def r3(ctx):
     R = ctx.R
     for cls in ("MergeMinPlateSmoother", "MergeTopBottomPlateSmoother", "NPlatePerCellLineSmoother"):
-        h = ctx.fn(f"{RETRO}.{cls}._get_plate_sample_id")
-        p = h.params[1]
-        g = CFG(h.node)
-        guards = [(Norm(strict=False).b(t.stmt.test, integer=True), arm) for t, arm in g.raising_guards()]
-        want = [Norm(strict=False).b(parse_expr(f"len({p}.unique_sample_ids) > 1"), integer=True),
-                Norm(strict=False).b(parse_expr(f"{p}.n_unique_samples != 1")), Norm(strict=False).b(parse_expr(f"len({p}.unique_sample_ids) != 1"))]
-        rets = [U(r.value) for r in returns(h.node)]
-        ctx.check("R3", f"{h.site()}::refuses-multi-sample", any(b in want and arm == "then" for b, arm in guards) and rets == [f"{p}.unique_sample_ids[0]"],
-                  "raises on a plate with more than one sample, else returns its sample id",
-                  f"helper does not refuse multi-sample plates before returning the first sample id (guards {len(guards)}, returns {rets})")
+        f = ctx.fn(f"{RETRO}.{cls}._smooth_plates")
+        hs = sample_of_plate_helpers(ctx, f)
+        # direct reads of a plate's first sample id inside the smoother bypass the refusal
+        direct = [U(n)[:60] for n in walk_own(f.node) if isinstance(n, ast.Subscript) and isinstance(n.value, ast.Attribute) and n.value.attr in ("unique_sample_ids", "sample_ids")
+                  and U(n.slice) == "0" and not U(n.value.value).endswith("screen")]
+        guarded_direct = []
+        if direct:
+            # acceptable when a new helper was spliced here together with its refusal: judged through raise_guards below
+            from engine.astutil import raise_guards
+            N0 = Norm(strict=False)
+            for conds, anchor, how, looped in raise_guards(R, f, N0):
+                for b_ in conds:
+                    if b_[0] == "cmp" or b_[0] == "not":
+                        guarded_direct.append(b_)
+        helpers = {}
+        for c, (h, p) in hs.items():
+            helpers[h.qname] = (h, p)
+        if not helpers and not direct:
+            if cls == "NPlatePerCellLineSmoother":
+                raise AnalysisError(f"{f.site()}: no plate -> sample id mapping found (neither a helper returning plate.unique_sample_ids[0] nor a direct read)")
+            continue        # the per-sample-list clause below reports a merge list that is not filtered by sample
+        for q, (h, p) in sorted(helpers.items()):
+            g = CFG(h.node)
+            henv = single_defs(h.node)
+            guards = [(Norm(strict=False).b(inline(t.stmt.test, henv), integer=True), arm) for t, arm in g.raising_guards()]
+            want = [Norm(strict=False).b(parse_expr(f"len({p}.unique_sample_ids) > 1"), integer=True),
+                    Norm(strict=False).b(parse_expr(f"{p}.n_unique_samples != 1")), Norm(strict=False).b(parse_expr(f"len({p}.unique_sample_ids) != 1")),
+                    Norm(strict=False).b(parse_expr(f"{p}.n_unique_samples > 1"), integer=True)]
+            ctx.check("R3", f"{f.site()}::refuses-multi-sample", any(b in want and arm == "then" for b, arm in guards),
+                      f"the plate -> sample mapping {h.site()} raises on a plate with more than one sample, else returns its sample id",
+                      f"{h.site()} does not refuse multi-sample plates before returning the first sample id ({len(guards)} raising guard(s))")
+        if direct and not helpers:
+            ctx.check("R3", f"{f.site()}::refuses-multi-sample", False, "",
+                      f"the smoother reads a plate's first sample id directly ({direct[:2]}) without the refusal of multi-sample plates")
     for cls in ("MergeMinPlateSmoother", "MergeTopBottomPlateSmoother"):
         f = ctx.fn(f"{RETRO}.{cls}._smooth_plates")
         merges = [c for c in calls(f.node, tail="merge")]
@@ -251,17 +295,20 @@ def r3(ctx):
             if isinstance(v, ast.Call) and call_name(v) in ("sorted", "list") and v.args and isinstance(v.args[0], (ast.ListComp, ast.GeneratorExp)):
                 return v.args[0]
             return None
+        hs_f = sample_of_plate_helpers(ctx, f)
         lcs = [n for n in walk_own(loop) if isinstance(n, ast.Assign) and comp_of(n.value) is not None]
         good_lists = {}
         for n in lcs:
             lc = comp_of(n.value)
             gen = lc.generators[0]
-            if len(lc.generators) == 1 and U(gen.iter).endswith(".plates") and len(gen.ifs) == 1 \
-                    and U(gen.ifs[0]).replace(" ", "") in (f"self._get_plate_sample_id({U(gen.target)})=={sid}", f"{sid}==self._get_plate_sample_id({U(gen.target)})") \
-                    and U(lc.elt) == U(gen.target):
-                good_lists[U(n.targets[0])] = n
-        ctx.check("R3", f"{f.site()}::per-sample-list", bool(good_lists), f"plates of one sample: [p for p in screen.plates if _get_plate_sample_id(p) == {sid}]",
-                  "the list of merge candidates is not filtered to the current sample through _get_plate_sample_id")
+            if len(lc.generators) == 1 and U(gen.iter).endswith(".plates") and len(gen.ifs) == 1 and U(lc.elt) == U(gen.target) \
+                    and isinstance(gen.ifs[0], ast.Compare) and len(gen.ifs[0].ops) == 1 and isinstance(gen.ifs[0].ops[0], ast.Eq):
+                l_, r_ = gen.ifs[0].left, gen.ifs[0].comparators[0]
+                hc = l_ if U(r_) == sid else (r_ if U(l_) == sid else None)
+                if isinstance(hc, ast.Call) and hc in hs_f and [U(a) for a in hc.args] == [U(gen.target)]:
+                    good_lists[U(n.targets[0])] = n
+        ctx.check("R3", f"{f.site()}::per-sample-list", bool(good_lists), f"plates of one sample: [p for p in screen.plates if <sample of p> == {sid}]",
+                  "the list of merge candidates is not filtered to the current sample through the refusing plate -> sample mapping")
         if not good_lists:
             continue
         lst = next(iter(good_lists))
@@ -289,7 +336,8 @@ def r3(ctx):
     for n in walk_own(f.node):
         if isinstance(n, ast.Assign) and n.value in hp:
             pops[U(n.targets[0])] = n
-    ok = ok and len(m) == 1 and {U(m[0].func.value), U(m[0].args[0])} == set(pops) and U(hs[0].args[1]) in [U(n.targets[0]) for n in walk_own(f.node) if isinstance(n, ast.Assign) and n.value is m[0]]
+    ok = ok and len(m) == 1 and {U(m[0].func.value), U(m[0].args[0])} == set(pops) and \
+        (hs[0].args[1] is m[0] or U(hs[0].args[1]) in [U(n.targets[0]) for n in walk_own(f.node) if isinstance(n, ast.Assign) and n.value is m[0]])
     ctx.check("R3", f"{f.site()}::two-heap-minima", ok, "heapify the sample's plates, pop the two minima, merge them, push the result back",
               "min-merge does not pop two minima from a heapified per-sample list and push the merged plate back")
     lt = ctx.fn("data.Plate.__lt__")
@@ -304,8 +352,12 @@ def r3(ctx):
     a, b = list(pops)[:2] if len(pops) >= 2 else ("a", "b")
     want_stop = N.b(parse_expr(f"({a}.size + {b}.size) > self.min_size"), integer=True)
     want_len = N.b(parse_expr(f"len({heap}) <= 1"), integer=True)
-    got = [N.b(x.test, integer=True) for x in brk]
-    ctx.check("R3", f"{f.site()}::stop-threshold", want_stop in got and want_len in got and all(x.lineno < m[0].lineno for x in brk if N.b(x.test, integer=True) == want_stop),
+    wenv = {n.targets[0].id: n.value for n in walk_own(wl[0]) if isinstance(n, ast.Assign) and len(n.targets) == 1 and isinstance(n.targets[0], ast.Name)
+            and n.targets[0].id not in pops and not isinstance(n.value, ast.Call)}
+    got = [N.b(inline(x.test, wenv), integer=True) for x in brk]
+    if not (isinstance(wl[0].test, ast.Constant) and wl[0].test.value is True):
+        got.append(N.b(wl[0].test, neg=True, integer=True))          # the loop also stops when its own test fails
+    ctx.check("R3", f"{f.site()}::stop-threshold", want_stop in got and want_len in got and all(x.lineno < m[0].lineno for x in brk if N.b(inline(x.test, wenv), integer=True) == want_stop),
               "stops exactly when fewer than two plates remain or the two smallest together exceed min_size",
               "the stop condition is not `len(heap) <= 1` / `(smallest.size + second.size) > self.min_size` evaluated before the merge")
     # top-bottom pairing
@@ -314,16 +366,45 @@ def r3(ctx):
     for n in walk_own(f.node):
         if isinstance(n, ast.Assign) and len(n.targets) == 1 and isinstance(n.targets[0], ast.Name):
             env.setdefault(n.targets[0].id, []).append(n.value)
+    env1 = {k: vs[0] for k, vs in env.items() if len(vs) == 1}
+
+    def T(x):
+        return U(inline(x, {k: v for k, v in env1.items() if k != "plates"})).replace(" ", "")
+    HALF = ("math.floor(len(plates)/2)", "len(plates)//2", "int(len(plates)/2)")
+    srt = any(U(v).replace(" ", "") == "sorted(plates,key=lambdax:x.size)" for v in env.get("plates", [])) or \
+        any(attr_tail(c) == "sort" and U(c.func.value) == "plates" and {k.arg: U(k.value).replace(" ", "") for k in c.keywords} == {"key": "lambdax:x.size"} for c in calls(f.node))
+    mm_all = [c for c in calls(f.node, tail="merge")]
+    ok = False
     zl = [n for n in walk_own(f.node) if isinstance(n, ast.For) and isinstance(n.iter, ast.Call) and call_name(n.iter) == "zip"]
-    ctx.need(len(zl) == 1, f"{f.site()}: pairing loop not found")
-    z = zl[0]
-    a0, a1 = [U(x).replace(" ", "") for x in z.iter.args]
-    half = [k for k, vs in env.items() if any(U(v).replace(" ", "") in (f"math.floor(len(plates)/2)", "len(plates)//2") for v in vs)]
-    srt = any(U(v).replace(" ", "") == "sorted(plates,key=lambdax:x.size)" for v in env.get("plates", []))
-    ok = bool(half) and srt and a0 == f"plates[:{half[0]}]" and a1 in (f"list(reversed(plates))[:{half[0]}]", f"plates[::-1][:{half[0]}]")
-    mm = [c for c in calls(z, tail="merge")]
-    sm, bg = [U(t) for t in z.target.elts]
-    ok = ok and len(mm) == 1 and {U(mm[0].func.value), U(mm[0].args[0])} == {sm, bg}
+    il = [n for n in walk_own(f.node) if isinstance(n, ast.For) and isinstance(n.iter, ast.Call) and call_name(n.iter) == "range" and len(n.iter.args) == 1 and T(n.iter.args[0]) in HALF]
+    if len(zl) == 1:
+        z = zl[0]
+        a0, a1 = [x for x in z.iter.args]
+        def head(x):
+            return isinstance(x, ast.Subscript) and isinstance(x.slice, ast.Slice) and x.slice.lower is None and x.slice.step is None and x.slice.upper is not None and T(x.slice.upper) in HALF
+        ok = srt and head(a0) and U(a0.value) == "plates" and head(a1) and U(a1.value).replace(" ", "") in ("list(reversed(plates))", "plates[::-1]")
+        mm = [c for c in calls(z, tail="merge")]
+        sm, bg = [U(t) for t in z.target.elts]
+        ok = ok and len(mm) == 1 and {U(mm[0].func.value), U(mm[0].args[0])} == {sm, bg}
+    elif len(il) == 1:
+        lp = il[0]
+        k = U(lp.target)
+        lenv = {n.targets[0].id: n.value for n in lp.body if isinstance(n, ast.Assign) and isinstance(n.targets[0], ast.Name)}
+        mm = [c for c in calls(lp, tail="merge")]
+        if len(mm) == 1:
+            ops = [inline(mm[0].func.value, lenv), inline(mm[0].args[0], lenv)]
+            idx = []
+            for o in ops:
+                if isinstance(o, ast.Subscript) and U(o.value) == "plates":
+                    idx.append(inline(o.slice, {k_: v for k_, v in env1.items() if k_ != "plates"}))
+            if len(idx) == 2:
+                N2 = Norm(strict=False)
+                keys = {N2.key(x) for x in idx}
+                lo = N2.key(parse_expr(k))
+                his = {N2.key(parse_expr(f"len(plates) - 1 - {k}")), N2.key(parse_expr(f"-1 - {k}")), N2.key(parse_expr(f"-({k} + 1)"))}
+                ok = srt and lo in keys and bool(keys & his) and len(keys) == 2
+    else:
+        raise AnalysisError(f"{f.site()}: pairing loop not found (neither zip(smallest half, largest half) nor an index loop over half the list)")
     rng_ = [n for n in walk_own(f.node) if isinstance(n, ast.For) and U(n.iter) == "range(self.n_iterations)"]
     ctx.check("R3", f"{f.site()}::pairs-smallest-with-largest", ok and len(rng_) == 1,
               "per iteration: sort by size, pair the floor(n/2) smallest with the floor(n/2) largest, one merge per pair (n -> ceil(n/2))",
